@@ -87,8 +87,9 @@ def real_value(v):
 _task_counter = [0]
 
 
-def make_task(spec: SigSpec, name=None):
-    """A real redun Task with this signature (not registered)."""
+def make_task(spec: SigSpec, name=None, version=None):
+    """A real redun Task with this signature (not registered). With `version` the task hash does not
+    depend on the source (hence not on the signature)."""
     from redun.task import Task
     ns = {"Info": Info}
     src = spec.source()
@@ -100,7 +101,7 @@ def make_task(spec: SigSpec, name=None):
     if fn.__kwdefaults__:
         fn.__kwdefaults__ = {k: real_value(d) for k, d in fn.__kwdefaults__.items()}
     _task_counter[0] += 1
-    return Task(fn, name=name or f"t{_task_counter[0]}", namespace="c15verif", source=src,
+    return Task(fn, name=name or f"t{_task_counter[0]}", namespace="c15verif", source=src, version=version,
                 task_options_base={"config_args": list(spec.conf)} if spec.conf else {})
 
 
@@ -407,6 +408,82 @@ def witnesses():
     ]
 
 
+# ------------------------------------------------------------------ in-process histories of declarations
+K_HISTORY = "history:key-depends-on-an-earlier-declaration-of-the-task"
+
+
+def reconf(g: Gen, spec: SigSpec) -> SigSpec:
+    """Same signature (same source, same task hash), different config_args."""
+    r = g.rng
+    names = spec.names()
+    if not names:
+        return SigSpec(spec.pos, spec.var, spec.kwonly, spec.varkw, [])
+    conf = set(spec.conf)
+    for n in r.sample(names, r.randint(1, min(3, len(names)))):    # add / remove, any binding route
+        conf ^= {n}
+    if r.random() < 0.15:
+        conf = set()
+    if r.random() < 0.1:
+        conf = set(names)
+    return SigSpec(spec.pos, spec.var, spec.kwonly, spec.varkw, [n for n in names if n in conf])
+
+
+def gen_history(g: Gen, name: str):
+    """A list of declarations (spec, warm-up calls) of one task name, and the version (None = hashed by source)."""
+    r = g.rng
+    version = "1" if r.random() < 0.3 else None
+    spec = g.sig()
+    steps = []
+    for _ in range(r.choice([2, 2, 3])):
+        steps.append((spec, [g.call(spec) for _ in range(r.choice([1, 2, 3]))]))
+        spec = g.sig() if (version and r.random() < 0.5) else reconf(g, spec)
+    return version, steps
+
+
+def run_history(name, version, steps, last_cases=None, g=None):
+    """Declare the task of each step in order and hash its warm-up calls; the LAST declaration is judged:
+    every case is decided on the task object of that declaration, against the spec of that declaration only.
+    -> (failing case, why) or None"""
+    task = None
+    for spec, warm in steps:
+        task = make_task(spec, name=name, version=version)
+        for args, kwargs in warm:
+            try:
+                real_key(task, args, kwargs)
+            except Exception:  # noqa
+                pass
+    spec, warm = steps[-1]
+    cases = last_cases
+    if cases is None:
+        cases = []
+        for args, kwargs in warm:
+            cases += mutations(g, spec, args, kwargs)
+    n = 0
+    for case in cases:
+        n += 1
+        try:
+            why = decide(case, task=task)
+        except Exception as e:  # noqa
+            why = f"implementation raised {type(e).__name__}: {e}"
+        if why:
+            return case, why, n
+    return None, None, n
+
+
+def history_to_json(name, version, steps, case, why):
+    return {"kind": "history", "name": name, "version": version, "why": why,
+            "steps": [{"sig": sp.to_json(), "source": sp.source(), "config_args": sp.conf,
+                       "warm": [[repr(a), repr(k)] for a, k in warm]} for sp, warm in steps],
+            "case": case.to_json()}
+
+
+def history_from_json(r):
+    env = {"Info": Info}
+    steps = [(spec_from_json(st["sig"], st.get("source")), [(eval(a, env), eval(k, env)) for a, k in st["warm"]])
+             for st in r["steps"]]
+    return r["name"], r["version"], steps, case_from_json(r["case"])
+
+
 def end_to_end_w1():
     """f(a, *rest, cfg=None), config_args=['cfg'] through the real Scheduler: is f(1,2,4) answered from
     the cache entry of f(1,2,3)?  -> (result of second call, number of executions)"""
@@ -463,6 +540,8 @@ class Check(PropertyCheck):
     rule = ("random signatures (0-3 positional params with a default suffix, optional *var, 0-2 keyword-only params, optional "
             "**var, random config_args over all parameter names incl. the variadic ones) and calls Python accepts (positional "
             "prefix, variadic tail, keywords in shuffled order, extra keywords, JobInfo values with p~0.12) plus perturbed calls; "
+            "in-process histories (the same task name/body declared 2-3 times with other config_args, or under a fixed "
+            "version with another signature; keys judged against the current declaration only); "
             "a case is non-trivial if the call has at least two arguments; distinct by (signature, config_args, call)")
 
     # ------------------------------------------------------------------
@@ -490,7 +569,11 @@ class Check(PropertyCheck):
         if (GEN / "C15Gen.vo").exists():
             cfgname, requires = "gen", ["Gen.C15Gen"]
         else:
-            cfgname, requires = "shipped", []
+            try:
+                cfgname = "shipped" if decide(witnesses()[0]) else "fixed"   # does the main shipped defect reproduce?
+            except Exception:  # noqa
+                cfgname = "shipped"
+            requires = []
         self.stat("correspondence_model", cfgname)
         g = Gen(self.rng)
         n = 300 if self.tier == "quick" else 6000
@@ -607,6 +690,32 @@ class Check(PropertyCheck):
             for case in mutations(g, spec, args, kwargs):
                 self.visit(case, "random")
                 n_pairs += 1
+        # in-process histories: the same task name/body declared again with other config_args (or, under a
+        # fixed version, another signature); every key is judged against the CURRENT declaration only
+        n_hist = n_hist_pairs = 0
+        for i in range(250 if self.tier == "quick" else 5000):
+            name = f"h{self.seed}_{i}"
+            version, steps = gen_history(g, name)
+            case, why, n = run_history(name, version, steps, g=g)
+            n_hist += 1
+            n_hist_pairs += n
+            self.evaluations += n
+            self.stat("history", f"declarations={len(steps)} version={'y' if version else 'n'}")
+            if case is None:
+                continue
+            # the same pair on a fresh task: a stateless defect is reported as such
+            if self.visit(case, "history-last-declaration"):
+                continue
+            decls = " -> ".join(f"config_args={sp.conf}" + (f" {sp.source().splitlines()[0]}" if version else "")
+                                for sp, _ in steps)
+            self.findings.append(Finding(
+                f"{K_HISTORY}:{case.kind}", f"{why} only after earlier declarations of the same task in this process "
+                f"({decls}); judged declaration: {case.spec!r}; call {case.args!r} {case.kwargs!r} vs {case.args2!r} {case.kwargs2!r}",
+                history_to_json(name + "_replay", version, steps, case, why)))
+            self.stat("oracle_failures", f"history:{case.kind}")
+        self.stat("oracle", "histories", n_hist)
+        self.stat("oracle", "history_pairs", n_hist_pairs)
+        n_pairs += n_hist_pairs
         self.stat("oracle", "pairs", n_pairs)
         self.stat("oracle", "small_scope_pairs", ss)
         self.stat("oracle", "corpus_pairs", n_corpus)
@@ -628,6 +737,15 @@ class Check(PropertyCheck):
             print("replay:", f"{case.spec!r}: {case.args!r} {case.kwargs!r} vs {case.args2!r} {case.kwargs2!r} "
                              f"(must be {'equal' if case.same else 'different'}):", why or "property holds on this pair now")
             return 1 if why else 0
+        if r.get("kind") == "history":
+            name, version, steps, case = history_from_json(r)
+            for k, (sp, warm) in enumerate(steps):
+                print(f"replay: declaration {k + 1}: {sp!r}" + (f" version={version}" if version else "")
+                      + f"; hashed calls {warm!r}")
+            bad, why, _ = run_history(name, version, steps, last_cases=[case])
+            print("replay:", f"last declaration, {case.args!r} {case.kwargs!r} vs {case.args2!r} {case.kwargs2!r} "
+                             f"(must be {'equal' if case.same else 'different'}):", why or "property holds on this history now")
+            return 1 if why else 0
         print("replay: nothing to replay (no failing input was found); broken obligations:",
               json.dumps(doc.get("broken_obligations", []))[:2000])
         return 1
@@ -648,23 +766,25 @@ def d_is(a, b):
     return a is b
 
 
-def case_from_json(r):
-    s = r["sig"]
-
+def spec_from_json(s, source=None):
     def fix(l):
         return [(n, NODEFAULT if d == NODEFAULT else d) for n, d in l]
-    env = {"Info": Info}
     spec = SigSpec(fix(s["pos"]), s["var"], fix(s["kwonly"]), s["varkw"], s["conf"])
     # defaults survive json only for plain values; rebuild them from the source line when present
-    if "source" in r:
+    if source:
         ns = {"Info": Info}
-        exec(r["source"], ns)                                 # noqa: S102 - our own generated source
-        f = ns["f"]
-        sig = inspect.signature(f)
+        exec(source, ns)                                      # noqa: S102 - our own generated source
+        sig = inspect.signature(ns["f"])
         spec.pos = [(n, NODEFAULT if sig.parameters[n].default is inspect.Parameter.empty else sig.parameters[n].default)
                     for n, _ in spec.pos]
         spec.kwonly = [(n, NODEFAULT if sig.parameters[n].default is inspect.Parameter.empty else sig.parameters[n].default)
                        for n, _ in spec.kwonly]
+    return spec
+
+
+def case_from_json(r):
+    env = {"Info": Info}
+    spec = spec_from_json(r["sig"], r.get("source"))
     return Case(spec, eval(r["args"], env), eval(r["kwargs"], env), eval(r["args2"], env), eval(r["kwargs2"], env),
                 r["expect_same_key"], r["mutation"], r["detail"])
 
